@@ -14,7 +14,10 @@
   Type conflicts need no hypothesis: a destination directory where the source has a file or
   link, a non-directory above a selected entry, or a non-directory where the source has a
   directory (`C01_dir_over_nondir_fails`, planned as a creation since fix 481828a) make the task
-  fail, which `exit = 0` excludes.
+  fail, which `exit = 0` excludes.  A destination SYMLINK where the source has a directory is
+  neither: since fix 862af11 it is replaced by a directory (planned as an update that runs before
+  everything below it), so `C01` covers that configuration with a real conclusion
+  (`C02.dir_over_own_link_replaced`).
 -/
 import SyModel.Lemmas.EnginePost
 namespace SyModel.Props.C01
@@ -114,40 +117,50 @@ theorem C01_hardlink_members_share_node (cfg : Cfg) (hnd : cfg.dryRun = false) (
     (taskOk_of_exit_zero hok (planEntry_mem_plan he)) (taskOk_of_exit_zero hok (planEntry_mem_plan he'))
 
 /-- An existing destination directory at the path of a selected directory is kept (planned as
-    `skip`); nothing else can be there after a run that exits 0. -/
+    `skip`); a destination symlink there is replaced by a directory (planned as `update`, fix 862af11);
+    nothing else can be there after a run that exits 0. -/
 theorem C01_existing_dir_node_kept (cfg : Cfg) (hnd : cfg.dryRun = false) (flt : Faults) (scan : List SEntry)
     (dst : Map DNode) (n : Nat) (hu : UniqueRels scan)
     (hdel : cfg.delete = true → ParentClosed scan ∧ dst.get? [] = none)
     (hino : cfg.hardlinks = true → InoConsistent scan)
     (hok : (runF cfg flt scan dst n).exit = 0) (e : SEntry) (he : e ∈ scanFilter cfg scan)
     (hk : e.kind = .dir) (hne : e.rel ≠ []) (hp : dst.get? e.rel ≠ none) :
-    dst.get? e.rel = some .dir ∧ (runF cfg flt scan dst n).dst.get? e.rel = dst.get? e.rel := by
+    (dst.get? e.rel = some .dir ∧ (runF cfg flt scan dst n).dst.get? e.rel = dst.get? e.rel) ∨
+    ((∃ s, dst.get? e.rel = some (.symlink s)) ∧ (runF cfg flt scan dst n).dst.get? e.rel = some .dir) := by
   have ep := entryPost_of_exit_zero hnd flt scan dst n hu hdel hino he hok
-  rcases ep.dir_pre hk hne with h | h
+  rcases ep.dir_pre hk hne with h | h | h
   · exact absurd h hp
-  · exact ⟨h, by rw [ep.dir hk hne, h]⟩
+  · exact Or.inl ⟨h, by rw [ep.dir hk hne, h]⟩
+  · exact Or.inr ⟨h, ep.dir hk hne⟩
 
-/-- **A non-directory where the source has a directory makes the run fail** (it is planned as a
+/-- **A regular file where the source has a directory makes the run fail** (it is planned as a
     creation, `create_dir_all` hits the existing entry): the exit status is non-zero and, unless
     the run was refused by the deletion guard, the failed creation is in the error list — under
-    every fault plan.  (Before fix 481828a this was planned as `skip` and silently left alone.) -/
+    every fault plan.  (Before fix 481828a this was planned as `skip` and silently left alone.  A
+    destination SYMLINK there is no longer a failure: since fix 862af11 it is replaced by a directory,
+    `C01_existing_dir_node_kept`, `C02.dir_over_own_link_replaced` — hence the hypothesis `hvl`.) -/
 theorem C01_dir_over_nondir_fails (cfg : Cfg) (hnd : cfg.dryRun = false) (flt : Faults) (scan : List SEntry)
     (dst : Map DNode) (n : Nat) (hu : UniqueRels scan)
     (hdel : cfg.delete = true → ParentClosed scan ∧ dst.get? [] = none)
     (hino : cfg.hardlinks = true → InoConsistent scan)
     (e : SEntry) (he : e ∈ scanFilter cfg scan) (hk : e.kind = .dir) (hne : e.rel ≠ [])
-    (v : DNode) (hv : dst.get? e.rel = some v) (hvd : v ≠ .dir) :
+    (v : DNode) (hv : dst.get? e.rel = some v) (hvd : v ≠ .dir) (hvl : ∀ s, v ≠ .symlink s) :
     (runF cfg flt scan dst n).exit ≠ 0 ∧
     ((runF cfg flt scan dst n).refused = false → (Act.create, e.rel) ∈ (runF cfg flt scan dst n).errors) := by
   have hnd' : dst.get? e.rel ≠ some .dir := by rw [hv]; simpa using hvd
   have hpe : planEntry cfg dst e = ⟨.create, e.rel, .dir⟩ := by
-    unfold planEntry; simp only [hk]
+    unfold planEntry; simp only [hk, hv]
+    cases v with
+    | dir => exact absurd rfl hvd
+    | symlink s => exact absurd rfl (hvl s)
+    | file m => rfl
   have notOk : ¬ TaskOk cfg flt (plan cfg scan dst) (initExec dst n) (planEntry cfg dst e) := by
     intro hok
     have ep := run_entry_post hnd flt scan dst n hu hdel hino hok
-    rcases ep.dir_pre hk hne with h | h
+    rcases ep.dir_pre hk hne with h | h | ⟨s, h⟩
     · rw [hv] at h; cases h
     · exact hnd' h
+    · rw [hv] at h; simp only [Option.some.injEq] at h; exact hvl s h
   refine ⟨fun h0 => notOk (taskOk_of_exit_zero h0 (planEntry_mem_plan he)), fun hr => ?_⟩
   obtain ⟨_, h2, h3, _⟩ := runF_of_not_refused hr
   have hacc := task_accounted (cfg := cfg) (flt := flt) (plan cfg scan dst) (initExec dst n)
@@ -185,6 +198,7 @@ example :
   have h := C01_dir_over_nondir_fails cxCfg rfl noFaults [⟨["d"], .dir, 4096, false⟩]
     [(["d"], .file (exMeta 1 2 3 4))] 10 (by decide) (fun h => by cases h) (fun h => by cases h)
     ⟨["d"], .dir, 4096, false⟩ (by decide) rfl (by decide) (.file (exMeta 1 2 3 4)) (by decide) (by decide)
+    (fun s => by simp)
   exact ⟨h.1, h.2 (by decide)⟩
 
 /-- the destination is left as it was (the failed task changes nothing) -/
